@@ -608,3 +608,40 @@ func VerifC08CloseWhileForwarderWaits() {
 	vassert(told2, "the writer is told at the latest on its second send")
 	vassert(told, "when every reader derived from the stream has been closed the writer is told on its next send (merged reader closed while its forwarder waits on the source)")
 }
+
+// array-backed readers of n1 and n2 items merged with a real stream (all three sizes symbolic choices, up to eight
+// array items in total): the merge neither blocks nor loses anything - every item of every source arrives exactly
+// once, each source in its own order, then end-of-stream
+func VerifC08MergeArraysAndStream() {
+	vcfg("selectfirst", 1)
+	n1 := vchoose("n1", 5)
+	n2 := vchoose("n2", 5)
+	var a1, a2 []int
+	for i := 0; i < n1; i++ {
+		a1 = append(a1, c08Val())
+	}
+	for i := 0; i < n2; i++ {
+		a2 = append(a2, c08Val())
+	}
+	L := 2
+	s, _, items := c08Source(L, -1, true)
+	srcs := [][]int{a1, a2, {items[0].v, items[1].v}}
+	m := MergeStreamReaders([]*StreamReader[int]{StreamReaderFromArray(a1), s, StreamReaderFromArray(a2)})
+	pos := make([]int, 3)
+	total := n1 + n2 + L
+	for k := 0; k < total; k++ {
+		v, err := m.Recv()
+		vassert(err == nil, "the merge of arrays and a stream delivers every item before end-of-stream")
+		matched := false
+		for i := 0; i < 3 && !matched; i++ {
+			if pos[i] < len(srcs[i]) && v == srcs[i][pos[i]] {
+				pos[i]++
+				matched = true
+			}
+		}
+		vassert(matched, "the merge of arrays and a stream delivers each source's items in source order")
+	}
+	_, err := m.Recv()
+	vassert(err == io.EOF, "the merge ends after every source has ended")
+	m.Close()
+}
